@@ -5,7 +5,29 @@ from sa import props
 
 VERIF = pathlib.Path(__file__).resolve().parent.parent
 ALL = [json.loads(l)["id"] for l in open(VERIF / "properties.jsonl")]
-TECH = {}
+A = "static analysis (abstract interpretation of tealer's syntax trees, never executed): "
+TECH = {
+    "C01": A + "decision tables of the detectors' predicates and of the path search on abstract CFG neighbourhoods, the dataflow equations as tables, whole small programs through the analysis against an independent reference semantics; guard inference over search_paths",
+    "C02": A + "path search evaluated on abstract neighbourhoods and (thorough) on every control skeleton against an independent reference search; guard table of search_paths; renderings compared with the block sequence",
+    "C03": A + "complete comparison tables of the four analyses (every operator x operand order x constant), Boolean combinators, block/edge constraint tables, whole programs against the reference semantics for exactness",
+    "C04": A + "control-flow table of the parser passes for every opcode; parse_teal on program shape classes and (thorough) all control skeletons against an independent reference graph; structural pairing/ordering rules over the passes",
+    "C05": A + "subroutine / caller / return-point tables of parse_teal and of Function on shape classes and skeletons against the reference graph; call-graph export evaluated; global neighbour functions as inverse relations",
+    "C06": A + "complete comparison table of GroupSize/GroupIndex (c in 0..18, both operand orders), store coupling, lattice tables, whole programs against the reference semantics (sound and exact per block)",
+    "C07": A + "complete table of TypeEnum / OnCompletion / ApplicationID comparisons against the AVM's kind semantics, lattice and store tables, generic solver tables",
+    "C08": A + "address comparison tables, lattice with ANY/NO elements, store function, edge constraints incl. branch to the next line, whole programs against the reference semantics",
+    "C09": A + "fee comparison tables with symbolic and boundary constants, the fee chain lattice, store function per key family, whole programs against the reference semantics",
+    "C10": A + "index classification, key matching / naming / universe tables, gtxn merge and attribution tables, the address analysis with all gtxn keys on programs against the reference semantics",
+    "C11": A + "stack effect of every AVM opcode as affine forms in symbolic immediates against a hand-reviewed AVM table; stack reconstruction against a reference stack machine; which instructions count as integer constants",
+    "C12": A + "copy_main_cfg / construct_function evaluated on program shape classes and dispatch paths: isomorphism, fresh vs shared blocks, error blocks at departures, contract snapshot unchanged",
+    "C13": A + "group verdict function on abstract groups with marker contexts (full product of routes), offset inversion table, configurations loaded from documents, main() with --group-config evaluated",
+    "C14": "static analysis: whole-package alias / effect / ordering analysis over the syntax trees (shared mutable roots, hash-order of set-to-sequence conversions, who writes contexts, mutable defaults, parameter mutation) plus abstract evaluation of detectors' closures, two-contract runs and equation functions for history independence",
+    "C15": A + "spelling tables (decimal/hex/octal, named constants, int/pushint/intc), one-door rule for constants, graph and context invariance under rewrites on program pairs and (thorough) a metamorphic sweep",
+    "C16": A + "parse_line and __str__ evaluated on every opcode spelling x field x immediate sample, prefix table, tokenizer rows (comments, byte-literal alphabets), unknown words, line numbers through parse_teal",
+    "C17": A + "every printer, the detect path and main() (detect, print, regex, option handling) evaluated on program shape classes with an abstract file system; (thorough) the whole tool with nothing abstracted",
+    "C18": A + "DOT text produced by the exporters parsed and compared with the reference graph (nodes, edges, call boxes, highlights, annotations), JSON envelope and --filter-paths through main(), number-range rendering exhaustively",
+    "C19": A + "version / mode / cost of every opcode and field against the AVM table, the version test for every (opcode, declared version), mode detection incl. unreachable code, block cost, contracts loaded through a configuration",
+    "C20": A + "match_regex / parse_regex / run_regex evaluated on program shapes x patterns x labels and (thorough) all control skeletons against an independent two-pass reference on the instruction graph",
+}
 NA = {}   # every property is claimed (C20 through T-REGEX since the D11 repair)
 NOT_YET = "check not built yet in this session (planned, see DESIGN.md section 4); not claimed until it runs clean"
 TECH_DEFAULT = "static analysis: abstract evaluation of the source's syntax trees into decision tables compared with AVM-derived oracles; structural/flow rules over the parsed package"
